@@ -127,7 +127,20 @@ def acc_step_unit(name, qual, acc_var, make_elem, props, extra_args=()):
         f = it.prog.func(qual)
         recv = [f.cls] if f.kind == 'classmethod' else []
         return [], recv + [[elem]] + list(extra_args), {}, None
-    return Unit(name, qual, build, (lambda c, *a: None), kind='step', props=tuple(props))
+    def spec(c, *a):
+        # reached only when the rule above did not fire (it ends the path with LoopCut): the accumulator was not found
+        from pyvc.contracts import Spec
+        from pyvc.values import Unsupported
+        sp = Spec()
+        sp.ret = Any()
+
+        def not_attached():
+            if not getattr(c.it, '_step_fired', False):
+                raise Unsupported('step contract cannot attach: no for-loop with the accumulator %r' % acc_var)
+            return z3.BoolVal(True)
+        sp.post = [('step-contract-attached', not_attached)]
+        return sp
+    return Unit(name, qual, build, spec, kind='step', props=tuple(props))
 
 
 def encoder_step_units(props):
